@@ -8,6 +8,7 @@ import (
 
 	"github.com/mlange-42/arche/ecs"
 	"github.com/mlange-42/arche/ecs/event"
+	"github.com/mlange-42/arche/generic"
 	"github.com/mlange-42/arche/listener"
 )
 
@@ -31,6 +32,7 @@ type COp struct {
 	Type    int         `json:"type,omitempty"`
 	Val     []byte      `json:"val,omitempty"`
 	QSlot   int         `json:"qslot,omitempty"`
+	K2      int         `json:"k2,omitempty"`
 	Res     int         `json:"res,omitempty"`
 	Spec    *FilterSpec `json:"spec,omitempty"`
 	Illegal string      `json:"illegal,omitempty"` // illegal class the generator aimed for ("" = legal intent)
@@ -74,6 +76,8 @@ type Sys struct {
 	idxOfID   map[uint8]int
 	Fillers   int
 	ResIDs    []ecs.ResID
+	ResReg    []bool
+	resOrder  []int
 	ResVals   []interface{}
 	Filters   []ecs.Filter
 	Cached    []*ecs.CachedFilter
@@ -109,8 +113,12 @@ func NewSys(name string, p *Plan) *Sys {
 			s.RegisterType(k)
 		}
 	}
+	s.ResIDs = make([]ecs.ResID, p.ResTypes)
+	s.ResReg = make([]bool, p.ResTypes)
 	for i := 0; i < p.ResTypes; i++ {
-		s.ResIDs = append(s.ResIDs, ecs.ResourceTypeID(s.W, ResType(i)))
+		if i%2 == 1 {
+			s.resID(i) // odd indices are registered up front, even ones at first use (possibly in a locked world)
+		}
 	}
 	s.ResVals = make([]interface{}, p.ResTypes)
 	return s
@@ -135,6 +143,88 @@ func (s *Sys) RegisterType(k int) (msg string, panicked bool) {
 	s.idxOfID[idOf(id)] = k
 	s.regOrder = append(s.regOrder, k)
 	return "", false
+}
+
+// Static resource types (needed for the generic access paths).
+type SR0 struct{ V uint64 }
+type SR1 struct{ V, W uint64 }
+type SR2 struct{ V uint32 }
+type SR3 struct{ S string }
+
+const nStaticRes = 4
+
+// resID returns the ID of resource index i, registering the type at first use.
+func (s *Sys) resID(i int) ecs.ResID {
+	if s.ResReg[i] {
+		return s.ResIDs[i]
+	}
+	var id ecs.ResID
+	switch i {
+	case 0:
+		id = ecs.ResourceID[SR0](s.W)
+	case 1:
+		r1 := generic.NewResource[SR1](s.W)
+		id = r1.ID()
+	case 2:
+		id = ecs.ResourceTypeID(s.W, reflect.TypeOf(SR2{}))
+	case 3:
+		id = ecs.ResourceID[SR3](s.W)
+	default:
+		id = ecs.ResourceTypeID(s.W, ResType(i))
+	}
+	s.ResIDs[i], s.ResReg[i] = id, true
+	s.resOrder = append(s.resOrder, i)
+	return id
+}
+
+func resTypeOf(i int) reflect.Type {
+	switch i {
+	case 0:
+		return reflect.TypeOf(SR0{})
+	case 1:
+		return reflect.TypeOf(SR1{})
+	case 2:
+		return reflect.TypeOf(SR2{})
+	case 3:
+		return reflect.TypeOf(SR3{})
+	}
+	return ResType(i)
+}
+
+func nilIfNilPtr[T any](p *T) interface{} {
+	if p == nil {
+		return nil
+	}
+	return p
+}
+
+// staticRes performs a resource operation on one of the static resource types through the generic access paths.
+// path 1: generic.Resource[T]; path 2: ecs.AddResource / ecs.GetResource.
+func staticRes[T any](w *ecs.World, variant string, path int, mk func() *T, res *Result) {
+	switch variant {
+	case "Add":
+		v := mk()
+		if path == 2 {
+			ecs.AddResource[T](w, v)
+		} else {
+			r := generic.NewResource[T](w)
+			r.Add(v)
+		}
+		res.Any = v
+	case "Remove":
+		r := generic.NewResource[T](w)
+		r.Remove()
+	case "Get":
+		if path == 2 {
+			res.Any = nilIfNilPtr(ecs.GetResource[T](w))
+		} else {
+			r := generic.NewResource[T](w)
+			res.Any = nilIfNilPtr(r.Get())
+		}
+	case "Has":
+		r := generic.NewResource[T](w)
+		res.Bool = r.Has()
+	}
 }
 
 func idOf(id ecs.ID) uint8 { return *(*uint8)(unsafe.Pointer(&id)) }
@@ -712,10 +802,37 @@ func (s *Sys) Apply(op *COp) (res Result) {
 			res.Any = w.Cache().Unregister(s.lastUnreg)
 		}
 	case "res":
-		id := s.ResIDs[op.Res]
+		if op.Res < nStaticRes && op.K2 > 0 {
+			s.resID(op.Res) // registers the type at first use and records ID and order
+			k := uint64(op.K)
+			switch op.Res {
+			case 0:
+				staticRes(w, op.Variant, op.K2, func() *SR0 { return &SR0{V: k} }, &res)
+			case 1:
+				staticRes(w, op.Variant, op.K2, func() *SR1 { return &SR1{V: k} }, &res)
+			case 2:
+				staticRes(w, op.Variant, op.K2, func() *SR2 { return &SR2{V: uint32(k)} }, &res)
+			case 3:
+				staticRes(w, op.Variant, op.K2, func() *SR3 { return &SR3{S: "r"} }, &res)
+			}
+			break
+		}
+		id := s.resID(op.Res)
 		switch op.Variant {
 		case "Add":
-			v := &Canary{ID: uint64(op.K)}
+			var v interface{}
+			switch op.Res {
+			case 0:
+				v = &SR0{V: uint64(op.K)}
+			case 1:
+				v = &SR1{V: uint64(op.K)}
+			case 2:
+				v = &SR2{V: uint32(op.K)}
+			case 3:
+				v = &SR3{S: "r"}
+			default:
+				v = &Canary{ID: uint64(op.K)}
+			}
 			w.Resources().Add(id, v)
 			res.Any = v
 		case "Remove":
